@@ -27,6 +27,12 @@ TRUSTED = {
 ASSUMED_CONSISTENT_CACHES = {
     'obname': 'EFLRItem.obname is never invalidated: open finding C14 c14_stale_obname (witness findings/c14_stale_obname.py)',
 }
+# Layering: the content properties below speak about what a reader finds IN THE FILE, so each of them also depends on the transport layer
+# (record -> segments -> visible records -> disk).  The root contract of that layer joins their checks; the contracts it uses at its
+# call sites (make_segments, make_segment, represent_as_bytes, _make_visible_record, the output buffer) follow by the callee closure.
+# The value encoders (write_struct*) need no entry: they are reached through the closure from the functions that call them.
+LAYER_ROOTS = {'transport': ['DLISWriter.write_logical_records']}
+PROPERTY_LAYERS = {p: ['transport'] for p in ('C03', 'C04', 'C05', 'C07', 'C08', 'C09', 'C12', 'C13')}
 ASSUMPTIONS = {
     '*': ['machine arithmetic: none - python ints are encoded as mathematical integers exactly',
           'termination is proved only where a loop variant is stated',
